@@ -176,7 +176,9 @@ func sameMatrix(got align.SubstitutionMatrix, want map[[2]byte]float64) string {
 	return ""
 }
 
-func labelLists(maxLen int) [][]core.S {
+func labelLists(maxLen int) [][]core.S { return labelListsFrom(ncbiLabels, maxLen) }
+
+func labelListsFrom(labels []string, maxLen int) [][]core.S {
 	var out [][]core.S
 	var rec func(cur []core.S, used int)
 	rec = func(cur []core.S, used int) {
@@ -186,7 +188,7 @@ func labelLists(maxLen int) [][]core.S {
 		if len(cur) == maxLen {
 			return
 		}
-		for i, l := range ncbiLabels {
+		for i, l := range labels {
 			if used>>i&1 == 1 {
 				continue
 			}
@@ -442,6 +444,52 @@ func runC20(r *core.Run) {
 				return core.Failf("ReadNCBI(%q) (layout %v): %s", text, t.Dev, f)
 			}
 			return core.Outcome{Class: fmt.Sprint("deviations=", len(t.Dev)), Nontrivial: len(t.Dev) > 0}
+		})
+
+	core.Clause(r, "readncbi-hash-label", core.Opts{Rule: "'#' is a letter of the alphabet like any other as long as it is not the first byte of its line (a comment starts in column 0): every ordered list of 1..3 distinct row labels and column labels from {#, A, *} that uses '#', the header indented as usual and every row labelled '#' indented by a blank or a tab (also: all rows indented): the matrix equals the ground truth; non-trivial = all"},
+		func(emit func(ncbiTable) bool) {
+			var hl [][]core.S
+			for _, l := range labelListsFrom([]string{"#", "A", "*"}, 3) {
+				hl = append(hl, l)
+			}
+			for _, rows := range hl {
+				for _, cols := range hl {
+					uses := false
+					for _, x := range append(append([]core.S{}, rows...), cols...) {
+						uses = uses || x == "#"
+					}
+					if !uses {
+						continue
+					}
+					for _, blank := range []string{"s", "t"} {
+						for _, all := range []bool{false, true} {
+							t := ncbiTable{Rows: rows, Cols: cols}
+							for i, rl := range rows {
+								if rl == "#" || all {
+									t.Dev = append(t.Dev, fmt.Sprintf("lead:%d:%s", i+1, blank))
+								}
+							}
+							if !emit(t) {
+								return
+							}
+						}
+					}
+				}
+			}
+		},
+		func(t ncbiTable) core.Outcome {
+			text := t.render(t.tokens())
+			m, err, p := readNCBI(text)
+			if p != "" {
+				return core.Failf("ReadNCBI panicked on %q: %s", text, p)
+			}
+			if err != nil {
+				return core.Failf("ReadNCBI(%q) failed: %v", text, err)
+			}
+			if f := sameMatrix(m, t.truth()); f != "" {
+				return core.Failf("ReadNCBI(%q): %s", text, f)
+			}
+			return core.Outcome{Class: "ok", Nontrivial: true}
 		})
 
 	core.Clause(r, "readncbi-corruptions", core.Opts{Rule: "every single-token corruption of the layout tables (with 0 or 1 layout deviation from {crlf, nofinal, a comment line}): a row value removed, an extra row value, a header column removed/added, each score replaced by x / 1..2 / --1 / empty-quoted, each label (header and row) replaced by AB: the result is (nil, error); non-trivial = all"},
